@@ -50,7 +50,8 @@ def check(run, replay=None):
         # process spawns dominate C15: a seeded sample of the pairs, every kind represented
         bykind = {}
         for c in cases:
-            bykind.setdefault((c["c"]["kind"], c["c"]["loc"]), []).append(c)
+            # descriptive edits each have their own compatibility class (NonBreaking / Warning): all of them
+            bykind.setdefault((c["c"]["kind"], c["c"]["loc"], c["c"]["edit"] if c["c"]["kind"] == "meta" else ""), []).append(c)
         pick = []
         for k in sorted(bykind):
             pick += rnd.sample(bykind[k], min(3, len(bykind[k])))
@@ -93,6 +94,9 @@ def check(run, replay=None):
                pipeline_mc=dict(states=mc["states"], transitions=mc["transitions"]),
                calibration_skipped=skipped, calibration_disagreements=sorted(set(disagree)),
                rejected_events=len(rejects), exhaustive=(len(cases) == gen["states"]))
+    if prop in ("C13",):
+        import frame_family
+        fv, fcov = frame_family.frame_stage(run); run.violations += fv; cov.update(fcov)
     return finish(run, "model_checking", cov, ASSUME)
 
 
@@ -153,4 +157,6 @@ def check_c12(run, vh, swagger, mc):
                pool_size=n, pool_pairs=min(n, npair) ** 2,
                samples=[c["c"] for c in cases2[:2]] + [cases[0]["c"]],
                rejected_events=len(rej1) + len(rej2))
+    import frame_family
+    fv, fcov = frame_family.frame_stage(run); run.violations += fv; cov.update(fcov)
     return finish(run, "model_checking", cov, ASSUME + ["validity of pool members is decided by go-openapi/validate (pinned dependency)"])
